@@ -34,14 +34,43 @@ func isLen(v ssa.Value) (ssa.Value, bool) {
 // provesGE reports whether the facts establish a >= b (+slack: a >= b+slack),
 // comparing operands by access path.
 func provesGE(facts []Fact, a, b ssa.Value, slack int64) bool {
-	pa, pb := Path(a), Path(b)
-	if ka, ok := ConstInt(a); ok {
-		if kb, ok := ConstInt(b); ok {
-			return ka >= kb+slack
+	return provesGEPath(facts, Path(a), a, b, slack)
+}
+
+// provesGEPath is provesGE with the left operand given as an access path
+// (aval may be nil when the operand is synthetic, e.g. "len(x)").
+func provesGEPath(facts []Fact, pa string, aval ssa.Value, b ssa.Value, slack int64) bool {
+	pb := Path(b)
+	if aval != nil {
+		if ka, ok := ConstInt(aval); ok {
+			if kb, ok := ConstInt(b); ok {
+				return ka >= kb+slack
+			}
 		}
 	}
 	if pa == pb && slack <= 0 {
 		return true
+	}
+	// a >= (b + c) with c >= 0  ⇒  a >= b ; a >= (x + k) with x >= 0, k >= b+slack ⇒ a >= b+slack
+	for _, f := range facts {
+		x, y, op := f.X, f.Y, f.Op
+		for i := 0; i < 2; i++ {
+			if Path(x) == pa && (op == token.GEQ || op == token.GTR) {
+				if sum, ok := Strip(y).(*ssa.BinOp); ok && sum.Op == token.ADD {
+					for _, pr := range [][2]ssa.Value{{sum.X, sum.Y}, {sum.Y, sum.X}} {
+						if Path(pr[0]) == pb && NonNegLen(pr[1]) && slack <= 0 {
+							return true
+						}
+						if kb, okb := ConstInt(b); okb && NonNegLen(pr[0]) {
+							if k, ok := ConstInt(pr[1]); ok && k >= kb+slack {
+								return true
+							}
+						}
+					}
+				}
+			}
+			x, y, op = y, x, SwapOp(op)
+		}
 	}
 	for _, f := range facts {
 		fx, fy := Path(f.X), Path(f.Y)
@@ -51,20 +80,22 @@ func provesGE(facts []Fact, a, b ssa.Value, slack int64) bool {
 		}
 		if fx != pa || fy != pb {
 			// a >= const facts when b is const
-			if kb, ok := ConstInt(b); ok && Path(f.X) == pa {
-				if kf, ok := ConstInt(f.Y); ok {
-					switch f.Op {
-					case token.GEQ:
-						if kf >= kb+slack {
-							return true
-						}
-					case token.GTR:
-						if kf+1 >= kb+slack {
-							return true
-						}
-					case token.EQL:
-						if kf >= kb+slack {
-							return true
+			if kb, ok := ConstInt(b); ok {
+				fxv, fyv, fop := f.X, f.Y, f.Op
+				if Path(fyv) == pa {
+					fxv, fyv, fop = fyv, fxv, SwapOp(fop)
+				}
+				if Path(fxv) == pa {
+					if kf, ok := ConstInt(fyv); ok {
+						switch fop {
+						case token.GEQ, token.EQL:
+							if kf >= kb+slack {
+								return true
+							}
+						case token.GTR:
+							if kf+1 >= kb+slack {
+								return true
+							}
 						}
 					}
 				}
@@ -72,16 +103,12 @@ func provesGE(facts []Fact, a, b ssa.Value, slack int64) bool {
 			continue
 		}
 		switch op {
-		case token.GEQ:
+		case token.GEQ, token.EQL:
 			if slack <= 0 {
 				return true
 			}
 		case token.GTR:
 			if slack <= 1 {
-				return true
-			}
-		case token.EQL:
-			if slack <= 0 {
 				return true
 			}
 		}
@@ -222,6 +249,9 @@ func upperOK(facts []Fact, x *ssa.Slice, fn *ssa.Function) bool {
 	if l, ok := isLen(hi); ok && Path(l) == Path(x.X) {
 		return true
 	}
+	if provesGEPath(facts, lenPathOf(x.X), nil, hi, 0) {
+		return true
+	}
 	// fact hi <= len(s) / cap(s) / the make size of s
 	ps := Path(x.X)
 	for _, f := range facts {
@@ -247,6 +277,11 @@ func upperOK(facts []Fact, x *ssa.Slice, fn *ssa.Function) bool {
 
 func constUpperOK(facts []Fact, x *ssa.Slice) bool {
 	k, _ := ConstInt(x.High)
+	if MinCapHook != nil {
+		if n, ok := MinCapHook(x.X, facts); ok && n >= k {
+			return true
+		}
+	}
 	if MinLenHook != nil {
 		if n, ok := MinLenHook(x.X, facts); ok && n >= k {
 			return true
@@ -288,6 +323,12 @@ func constUpperOK(facts []Fact, x *ssa.Slice) bool {
 
 func lowWithinLen(facts []Fact, x *ssa.Slice) bool {
 	lo := x.Low
+	if ConsumedHook != nil && ConsumedHook(lo, x.X) {
+		return true
+	}
+	if provesGEPath(facts, lenPathOf(x.X), nil, lo, 0) {
+		return true
+	}
 	if bo, ok := Strip(lo).(*ssa.BinOp); ok && bo.Op == token.SUB {
 		if l, ok := isLen(bo.X); ok && Path(l) == Path(x.X) {
 			return true // len(s)-K <= len(s); K <= len(s) is the underflow rule
@@ -345,6 +386,9 @@ func constUpperOKk(facts []Fact, s ssa.Value, k int64) bool {
 // MinLenHook, when set, supplies a proven lower bound of len(s) (for example
 // the post-condition of the function that returned s).
 var MinLenHook func(s ssa.Value, facts []Fact) (int64, bool)
+
+// MinCapHook supplies a proven lower bound of cap(s).
+var MinCapHook func(s ssa.Value, facts []Fact) (int64, bool)
 
 // ResultMinLen computes the lower bound of the length of the (first) []byte
 // result of fn over all returns that return a non-nil slice: for `return
@@ -404,4 +448,63 @@ func makeOf(s ssa.Value) *ssa.MakeSlice {
 		return mk
 	}
 	return nil
+}
+
+// NonNegLen reports whether v is syntactically a non-negative length-like
+// quantity: a non-negative constant, len()/cap(), an unsigned value, a call of
+// a method whose name says it returns a length (Len, …Length, …Size), or a sum
+// / phi of such values.
+func NonNegLen(v ssa.Value) bool { return nonNegLen(v, 0) }
+
+func nonNegLen(v ssa.Value, d int) bool {
+	if v == nil || d > 6 {
+		return false
+	}
+	if k, ok := ConstInt(v); ok {
+		return k >= 0
+	}
+	if b, ok := v.Type().Underlying().(*types.Basic); ok && b.Info()&types.IsUnsigned != 0 {
+		return true
+	}
+	switch x := v.(type) {
+	case *ssa.Convert:
+		return nonNegLen(x.X, d+1)
+	case *ssa.Call:
+		if IsBuiltin(x, "len") || IsBuiltin(x, "cap") {
+			return true
+		}
+		if f := Callee(x); f != nil {
+			n := f.Name()
+			if n == "Len" || hasSuffix(n, "Length") || hasSuffix(n, "Size") || n == "Pos" {
+				return true
+			}
+		}
+	case *ssa.BinOp:
+		if x.Op == token.ADD || x.Op == token.MUL {
+			return nonNegLen(x.X, d+1) && nonNegLen(x.Y, d+1)
+		}
+	case *ssa.Phi:
+		for _, e := range x.Edges {
+			if !nonNegLen(e, d+1) {
+				return false
+			}
+		}
+		return len(x.Edges) > 0
+	}
+	return false
+}
+
+func hasSuffix(s, suf string) bool { return len(s) >= len(suf) && s[len(s)-len(suf):] == suf }
+
+// ConsumedHook, when set, reports whether value n is known to satisfy
+// 0 <= n <= len(s) (for example the byte count returned by a decoder run on s).
+var ConsumedHook func(n, s ssa.Value) bool
+
+// lenPathOf returns the access path that denotes len(s): for s = make([]T, n)
+// that is the path of n itself.
+func lenPathOf(s ssa.Value) string {
+	if mk := makeOf(s); mk != nil {
+		return Path(mk.Len)
+	}
+	return "len(" + Path(s) + ")"
 }
